@@ -433,6 +433,37 @@ def verdict_of(r):
 
 
 # ---- rendering as Coq terms --------------------------------------------------------------
+# strings are interned as Coq constants (k<i> : str, s<i> : pv) defined once in the
+# preamble of every case file: string literals dominate the elaboration time otherwise
+_INTERN = {}
+
+
+def c_k(s):
+    if s not in _INTERN:
+        _INTERN[s] = len(_INTERN)
+    return "k%d" % _INTERN[s]
+
+
+def c_pv(v):   # noqa: F811  (shadows lib.c_pv: same rendering with interned strings)
+    if isinstance(v, str):
+        return "s%d" % int(c_k(v)[1:])
+    if isinstance(v, (list, tuple)):
+        return "(PList %s)" % c_list([c_pv(x) for x in v])
+    if isinstance(v, dict):
+        for k in v:
+            if not isinstance(k, str):
+                raise TypeError("c_pv: non-str dict key %r" % (k,))
+        return "(PDict %s)" % c_list(["(%s, %s)" % (c_k(k), c_pv(x)) for k, x in v.items()])
+    return lib.c_pv(v)
+
+
+def intern_preamble():
+    out = []
+    for s, i in sorted(_INTERN.items(), key=lambda kv: kv[1]):
+        out.append("Definition k%d : str := %s.\nDefinition s%d : pv := PStr k%d." % (i, c_str(s), i, i))
+    return "\n".join(out)
+
+
 def c_alw(v):
     return "PNone" if (v is ABSENT or v is None) else c_pv(v)
 
@@ -477,7 +508,7 @@ def c_call(d):
 
 def c_verdict_for(d, v):
     if v[0] == "name":
-        return "VName (Ok %s)" % c_str(v[1])
+        return "VName (Ok %s)" % c_k(v[1])
     if v[0] == "ok":
         return "VUnit (Ok tt)"
     return ("VName " if d["op"] in GATE_OPS else "VUnit ") + "(Err %s)" % c_exn(v[1])
@@ -664,7 +695,7 @@ def gate_calls(g, ctx):
         for n in names:
             dop = op.replace(".get", ".default.get")
             calls.append({"op": dop, "name": n, "algorithms": ABSENT, "registry": ABSENT})
-            k = ctx.scale(6, 40)
+            k = ctx.scale(6, 30)
             allows = [[n] if isinstance(n, str) else [n, "HS256"]] + rng.sample(fixed, min(len(fixed), 3 if ctx.quick else len(fixed)))
             allows += [g.allow_for([n], universe, rec, rng.random() < 0.1) for _ in range(k)]
             for a in allows:
@@ -676,7 +707,7 @@ def gate_calls(g, ctx):
 def jws_calls(g, ctx):
     rng = g.rng
     calls = []
-    reps = ctx.scale(3, 30)
+    reps = ctx.scale(3, 20)
     for op in JWS_SIGN_OPS + JWS_VERIFY_OPS:
         verify = op in JWS_VERIFY_OPS
         general = op.endswith("general")
@@ -860,7 +891,9 @@ def describe(d):
 
 
 def run(ctx):
+    t0 = time.time()
     ok, log = ctx.prove(extra_targets=["model/C05Cases.vo"])
+    t_prove = time.time() - t0
     proof_rep = {"log": log[-3000:], "no_failing_input_found": True, "broken": "theorems of props/C05.v"}
     if not ok:
         ctx.violation({"kind": "proof-broken"}, "props/C05.v or its closure no longer compiles "
@@ -871,6 +904,7 @@ def run(ctx):
     SUP = {"jws": list(jws.JWSRegistry.algorithms), "alg": list(jwe.JWERegistry.algorithms["alg"]),
            "enc": list(jwe.JWERegistry.algorithms["enc"]), "zip": list(jwe.JWERegistry.algorithms["zip"])}
     snap0 = snapshot()
+    _INTERN.clear()
     g = Gen(ctx, SUP)
     cases, meta = [], []
     dist = {}
@@ -964,7 +998,7 @@ def run(ctx):
         ctx.notes.append("the model registered as 'none' is %r" % (none_model,))
 
     # ---- histories on the shared default registries
-    n_hist = ctx.scale(40, 400)
+    n_hist = ctx.scale(40, 300)
     hist_calls = 0
     shared = [pv for pv in pool if pv[0]["registry"] is ABSENT] or pool
     for hno in range(n_hist):
@@ -1027,13 +1061,18 @@ def run(ctx):
                             "verdict of a call inside a history == first verdict == verdict in a forked pristine state")
     ctx.coverage["input_distribution"] = dist
     for i in (0, len(cases) // 3, len(cases) // 2):
-        ctx.sample({"coq_case": cases[i][:300]})
+        if meta[i][0] == "call":
+            ctx.sample({"call": describe(meta[i][1]), "implementation_verdict": list(meta[i][2]),
+                        "coq_case (s<i>/k<i> = interned strings)": cases[i][:300]})
     ctx.sample({"usable_without_list": usable})
 
     # ---- correspondence
     ev = lib.CoqEval(["From Model Require Import Base PyVal TableTypes C05Model C05Cases."], "c05case", "c05_check",
-                     "c05_show", shard=250)
+                     "c05_show", shard=400, preamble=intern_preamble(), max_chars=120000)
+    t1 = time.time()
     res = ev.run(cases)
+    ctx.coverage["phase_wall_s"] = {"prove": round(t_prove, 1), "implementation_runs": round(t1 - t0 - t_prove, 1),
+                                    "coq_case_evaluation": round(time.time() - t1, 1)}
     ctx.coverage["traces_validated_against_impl"] = res["evaluated"]
     ctx.coverage["disagreements_checked"] = len(res["failing"])
     direct_n = len(ctx.violations)
@@ -1072,10 +1111,16 @@ def replay(path):
     r = json.load(open(path))
     rep = r["replay"]
     print("replay:", {k: v for k, v in rep.items() if k != "blob"})
-    if not rep.get("blob"):
-        print("no executable call recorded (table / proof level finding)")
-        return 1
     from joserfc import jws, jwe
+    if rep.get("check") == "default-set":
+        tbl = jws.JWSRegistry.algorithms if rep["which"] == "jws" else jwe.JWERegistry.algorithms[rep["which"]]
+        recl = jws.JWSRegistry.recommended if rep["which"] == "jws" else jwe.JWERegistry.recommended
+        usable = [n for n in tbl if n in recl]
+        print("usable without a list:", usable, "expected:", rep["expected"])
+        return 0 if set(usable) == set(rep["expected"]) else 1
+    if not rep.get("blob"):
+        print("no executable call recorded (proof / correspondence level finding): re-run ./check C05")
+        return 1
     blob = pickle.loads(base64.b64decode(rep["blob"]))
     K = Keys(jwks=blob["keys"])
     SUP = {"jws": list(jws.JWSRegistry.algorithms), "alg": list(jwe.JWERegistry.algorithms["alg"]),
